@@ -125,6 +125,47 @@ def greedy_interior_model(assertions, extra=None, eps_list=("1", "1/100"), per_q
     return best
 
 
+def spread_model(assertions, extra, inputs, eps=None, per_query_ms=300, budget_s=6.0):
+    """Generic-position witness: keep the (margin-strengthened) constraints and pin as many inputs
+    as stay satisfiable to distinct, moderate, non-zero values.  A refutation that does not depend
+    on the numbers at all (a structural check) otherwise comes with an all-zero model on which
+    nothing shows concretely."""
+    import time as _t
+    import zlib
+
+    s = z3.Solver()
+    s.set("timeout", 2000)
+    e = z3.RealVal(eps) if eps is not None else None
+    for a in assertions:
+        s.add(strengthen(a, e) if e is not None else a)
+    if extra is not None:
+        s.add(strengthen(extra, e) if e is not None else extra)
+    if s.check() != z3.sat:
+        return None
+    best = s.model()
+    s.set("timeout", per_query_ms)
+    t0 = _t.time()
+    for i, (name, var) in enumerate(sorted(inputs.items())):
+        if _t.time() - t0 > budget_s:
+            break
+        if not z3.is_real(var):
+            continue
+        r = zlib.crc32(name.encode())
+        if name[:1] == "o":
+            cands = [z3.RealVal(x) for x in ("1/2", "1/4", "3/4")]
+        else:
+            base = 2 + (r % 11) + (i % 5) * 13
+            cands = [z3.Q(2 * base + 1, 2), z3.Q(-(2 * base + 1), 2), z3.Q(2 * (r % 7) + 1, 8)]
+        for c in cands:
+            s.push()
+            s.add(var == c)
+            if s.check() == z3.sat:
+                best = s.model()
+                break
+            s.pop()
+    return best
+
+
 class _ModelAdapter:
     """model living in another z3 context; evaluates main-context terms"""
 
@@ -137,9 +178,10 @@ class _ModelAdapter:
 
 
 class Failure:
-    __slots__ = ("label", "inputs", "detail", "decisions")
+    __slots__ = ("label", "inputs", "detail", "decisions", "alt_inputs")
 
-    def __init__(self, label, inputs, detail, decisions):
+    def __init__(self, label, inputs, detail, decisions, alt_inputs=None):
+        self.alt_inputs = alt_inputs  # second witness in generic position (spread_model)
         self.label = label
         self.inputs = inputs  # name -> float (exact Fractions in 'exact')
         self.detail = detail
@@ -151,6 +193,7 @@ class Failure:
             "inputs": self.inputs,
             "detail": self.detail,
             "decisions": list(self.decisions),
+            "alt_inputs": self.alt_inputs,
         }
 
 
@@ -509,6 +552,7 @@ class Ctx:
         # itself) holds with a visible margin: survives float replay and float32 Skia
         if True:
             extra_ = z3.Not(t) if isinstance(t, z3.ExprRef) else None
+            used_eps = None
             for eps in ("1", "1/100"):
                 try:
                     rm = interior_model(self.assertions, eps, extra=extra_, timeout=2000)
@@ -516,6 +560,7 @@ class Ctx:
                     rm = None
                 if rm is not None:
                     model = rm
+                    used_eps = eps
                     break
             else:
                 try:
@@ -524,6 +569,16 @@ class Ctx:
                     rm = None
                 if rm is not None:
                     model = rm
+        if self.opts.get("spread_witness", True):
+            # second witness in generic position (tried after the first by the replay)
+            try:
+                sm = spread_model(self.assertions, extra_, self.inputs, eps=used_eps)
+            except z3.Z3Exception:
+                sm = None
+            if sm is not None:
+                self.spread_inputs = {k: str(v) for k, v in self.model_inputs(sm).items()}
+            else:
+                self.spread_inputs = None
         inputs = self.model_inputs(model)
         self.failures.append(
             Failure(
@@ -531,6 +586,7 @@ class Ctx:
                 {k: str(v) for k, v in inputs.items()},
                 detail,
                 tuple(self.decisions),
+                alt_inputs=getattr(self, "spread_inputs", None),
             )
         )
         self._last_failure_model = model
